@@ -214,6 +214,20 @@ var Templates = []*Template{
 		},
 	},
 	{
+		// two imports go, one comes; the imports that go carry trailing comments
+		Name: "drop-two-imports",
+		Patch: func(k int) string {
+			return fmt.Sprintf("@@\nvar x expression\n@@\n-import \"vf/b%d\"\n-import \"vf/c%d\"\n+import \"vf/e%d\"\n\n-b%d.Foo(c%d.Bar(x))\n+e%d.Foo(x)\n", k, k, k, k, k, k)
+		},
+		Trigger: func(k int) string { return fmt.Sprintf("vf/b%d", k) },
+		Stmt: func(r *world.PRNG, k int) string {
+			return fmt.Sprintf("b%d.Foo(c%d.Bar(%s))", k, k, GenExpr(r, 1))
+		},
+		Imports: func(k int) []string {
+			return []string{fmt.Sprintf("\"vf/b%d\" // bee", k), fmt.Sprintf("\"vf/c%d\" // cee", k)}
+		},
+	},
+	{
 		Name: "type-rename",
 		Patch: func(k int) string {
 			return fmt.Sprintf("@@\nvar T identifier\n@@\n-type VfOld%d T\n+type VfNew%d T\n", k, k)
